@@ -32,6 +32,12 @@ def gen(rnd):
     # a backup left by an earlier session is OLDER than the (since reduced) test case; a hand-made one may be newer
     sc['pre_orig_age'] = {n: rnd.choice([-1000, -1000, 0, 1000]) for n in sc['pre_orig']}
     sc['modes'] = {n: rnd.choice([0o644, 0o600, 0o755, 0o640, 0o664]) for n, _ in sc['files']}
+    # rarely used switches: --skip-initial-passes (the backup is still taken before anything is touched), --save-temps
+    # (what is kept is kept under TMPDIR, not in the working directory)
+    if rnd.random() < 0.25:
+        sc['skip_initial'] = True
+    if rnd.random() < 0.25:
+        sc['cfg']['save_temps'] = True
     if rnd.random() < 0.1:
         sc['files'] = [(n, '') for n, _ in sc['files']]
         sc['rules'] = [([], 0)]
